@@ -64,7 +64,7 @@ RING& RNSsystem<RING,Domain>::MixedRadixToRing( RING& res, const RNSsystem<RING,
 {
   size_t Size = _primes.size();
   if (!Size)
-	  GivError("_primes is empty");
+	  throw GivError("[RNSsystem::MixedRadixToRing]: _primes is empty");
   if (Size != mixrad.size())
     throw GivError("[RNSsystem::MixedRadixToRing]: bad size of input array");
   _primes[int(Size-1)].convert(res,mixrad[int(Size-1)]);
